@@ -1079,7 +1079,7 @@ def _argspace_exec(args):
     import polars as pl
     import pydiverse.transform as pdt
     import sqlalchemy as sqa
-    from pydiverse.transform import alias, arrange, export, join, select, slice_head, union
+    from pydiverse.transform import alias, arrange, export, group_by, join, mutate, select, slice_head, summarize, union
 
     eng = sqa.create_engine("sqlite://", poolclass=sqa.pool.StaticPool)
     frames = {}
@@ -1116,6 +1116,60 @@ def _argspace_exec(args):
                             r = r >> alias()
                         r = r >> slice_head(n, offset=k)
                     rec["out"] = (r >> export(pdt.Polars()))["rid"].to_list()
+                elif c["verb"] == "agg":
+                    from fractions import Fraction
+                    rows = [tuple(x) for x in c["rows"]]
+                    key = ("a", tuple(rows))
+                    name = "a" + "".join(("n" if k == 99 else str(k)) + ("n" if v == 99 else "m" if v == -1 else str(v)) for k, v in rows) + "x"
+                    if key not in frames:
+                        frames[key] = pl.DataFrame({"rid": list(range(1, len(rows) + 1)), "g": [None if k == 99 else k for k, _ in rows],
+                                                    "v": [None if v == 99 else v for _, v in rows]},
+                                                   schema={"rid": pl.Int64, "g": pl.Int64, "v": pl.Int64})
+                        frames[key].write_database(name, eng, if_table_exists="replace")
+                    t = tbl(bk, key, name)
+                    kw = dict(partition_by=t.g) if c["mode"] == "window" else {}
+                    e = pdt.count(**kw) if c["op"] == "len" else getattr(t.v, c["op"])(**kw)
+
+                    def enc(x):
+                        if x is None:
+                            return [0, 0] if c["op"] == "mean" else 99
+                        if c["op"] == "mean":
+                            fr = Fraction(x).limit_denominator(1000)
+                            return [fr.numerator, fr.denominator]
+                        return int(x)
+
+                    if c["mode"] == "grouped":
+                        df = t >> group_by(t.g) >> summarize(r=e) >> export(pdt.Polars())
+                        rec["out"] = [[99 if k is None else k, enc(x)] for k, x in zip(df["g"].to_list(), df["r"].to_list())]
+                    elif c["mode"] == "ungrouped":
+                        df = t >> summarize(r=e) >> export(pdt.Polars())
+                        rec["out"] = [[0, enc(x)] for x in df["r"].to_list()]
+                    else:
+                        df = t >> mutate(r=e) >> export(pdt.Polars())
+                        rec["out"] = [[i, enc(x)] for i, x in zip(df["rid"].to_list(), df["r"].to_list())]
+                elif c["verb"] == "win":
+                    keys = c["keys"]
+                    key = ("w", tuple(keys), c["vnull"])
+                    name = "w" + "".join("n" if v == 99 else str(v) for v in keys) + ("v" if c["vnull"] else "") + "x"
+                    if key not in frames:
+                        nrow = len(keys)
+                        frames[key] = pl.DataFrame({"rid": list(range(1, nrow + 1)), "k": [None if v == 99 else v for v in keys],
+                                                    "v": [None if (c["vnull"] and i == 2) else i for i in range(1, nrow + 1)],
+                                                    "p": [i % 2 for i in range(1, nrow + 1)]},
+                                                   schema={"rid": pl.Int64, "k": pl.Int64, "v": pl.Int64, "p": pl.Int64})
+                        frames[key].write_database(name, eng, if_table_exists="replace")
+                    t = tbl(bk, key, name)
+                    o = t.k.descending() if c["desc"] else t.k
+                    o = o.nulls_first() if c["nl"] == "first" else o.nulls_last()
+                    kw = dict(arrange=o)
+                    if c["part"]:
+                        kw["partition_by"] = t.p
+                    fn = c["fn"]
+                    e = (pdt.row_number(**kw) if fn == "row_number" else pdt.rank(**kw) if fn == "rank" else pdt.dense_rank(**kw) if fn == "dense_rank"
+                         else t.v.shift(1, **kw) if fn == "shift1" else t.v.shift(-1, **kw) if fn == "shiftm1" else t.v.cum_sum(**kw))
+                    df = t >> mutate(r=e) >> export(pdt.Polars())
+                    byrid = dict(zip(df["rid"].to_list(), df["r"].to_list()))
+                    rec["out"] = [99 if byrid[i] is None else int(byrid[i]) for i in range(1, len(keys) + 1)]
                 elif c["verb"] == "joinrows":
                     lt, rt = keytbl(bk, "l", c["l"]), keytbl(bk, "r", c["r"])
                     on = "k" if c["on"] == "str" else (lt.k == rt.k) if c["on"] == "eq" else (lt.k <= rt.k)
@@ -1141,16 +1195,18 @@ def phase_argspace(ctx, phase):
     ns, ks, sizes = phase.get("ns", [0, 1, 2, 4]), phase.get("ks", [0, 1, 2, 5]), phase.get("sizes", [0, 3, 5])
     ucols = phase.get("ucols", ["a", "b", "c"])
     jkeys, jmax = phase.get("jkeys", [0, 1, 2]), phase.get("jmax", 3)
-    verbs = phase.get("verbs", ["slices", "union", "joinrows"])
+    wmax, amax = phase.get("wmax", 4), phase.get("amax", 3)
+    verbs = phase.get("verbs", ["slices", "union", "joinrows", "win", "agg"])
     d = tlc.prepare(f"{ctx.prop}-argspace-{os.getpid()}", ctx.seed)
     common = (f"NsDef == {{{', '.join(map(str, ns))}}}\nKsDef == {{{', '.join(map(str, ks))}}}\nSizesDef == {{{', '.join(map(str, sizes))}}}\n"
-              f"UColsDef == {tlc.tla_lit(ucols)}\nJKeysDef == {{{', '.join(map(str, jkeys))}}}\n")
+              f"UColsDef == {tlc.tla_lit(ucols)}\nJKeysDef == {{{', '.join(map(str, jkeys))}}}\n"
+              f"GenVerbsDef == {{{', '.join(tlc.tla_lit(v) for v in verbs)}}}\n")
 
     def write(mode):
         with open(os.path.join(d, "Run.tla"), "w") as f:
             f.write("---- MODULE Run ----\nEXTENDS MC_ArgSpace\n" + common + "====\n")
         with open(os.path.join(d, "Run.cfg"), "w") as f:
-            f.write(f'CONSTANTS\n  Mode = "{mode}"\n  Ns <- NsDef\n  Ks <- KsDef\n  Sizes <- SizesDef\n  UCols <- UColsDef\n  JKeys <- JKeysDef\n  JMaxLen = {jmax}\nINIT Init\nNEXT Next\nCHECK_DEADLOCK FALSE\n')
+            f.write(f'CONSTANTS\n  Mode = "{mode}"\n  GenVerbs <- GenVerbsDef\n  Ns <- NsDef\n  Ks <- KsDef\n  Sizes <- SizesDef\n  UCols <- UColsDef\n  JKeys <- JKeysDef\n  JMaxLen = {jmax}\n  WMaxLen = {wmax}\n  AMaxLen = {amax}\n  NULL = NULL\n  UNDEF = UNDEF\n  ANY = ANY\nINIT Init\nNEXT Next\nCHECK_DEADLOCK FALSE\n')
 
     write("gen")
     cfgs = []
@@ -1183,13 +1239,15 @@ def phase_argspace(ctx, phase):
         counts.setdefault(c["verb"], {}).setdefault(v["verdict"], 0)
         counts[c["verb"]][v["verdict"]] += 1
         if v["verdict"] != "ok":
-            clause = "rows" if v["verdict"] in ("rows", "row-count") else ("names" if v["verdict"] == "names" else "export-error" if v["verdict"] == "unexpected-error" else "errclass")
+            clause = "rows" if v["verdict"] in ("rows", "row-count", "values", "groups") else ("names" if v["verdict"] == "names" else "export-error" if v["verdict"] == "unexpected-error" else "errclass")
             what = (f"{c['size']} rows, arrange(rid) >> " + (" >> alias() >> " if c["alias"] else " >> ").join(f"slice_head({n}, offset={k})" for n, k in c["args"])
                     if c["verb"] == "slices" else f"keys {c['l']} join keys {c['r']} (0 = null) how={c['how']} on={c['on']}" if c["verb"] == "joinrows"
+                    else f"(g, v) rows {c['rows']} (99 = null): {c['op']} {c['mode']}" if c["verb"] == "agg"
+                    else f"k={c['keys']} (99 = null){', v null in row 2' if c['vnull'] else ''}: {c['fn']}(arrange=k{'.descending()' if c['desc'] else ''}.nulls_{c['nl']}(){', partition_by=rid%2' if c['part'] else ''})" if c["verb"] == "win"
                     else f"select{c['l']} >> union(select{c['r']}, distinct={c['distinct']})")
             ctx.failures.append(dict(clause=clause, backend=r["backend"], step=0, tainted=False, src=["argspace"], srcidx=0, exc=r["err"] or None,
                                      detail=f"{c['verb']}: {v['verdict']}: {what} -> {r['names']} {r['out']} {r['err']} {r.get('msg', '')}",
-                                     moves=[dict(v={"slices": "slice_head", "joinrows": "join"}.get(c["verb"], "union"), i=1)], heap_obs=[], beh=r))
+                                     moves=[dict(v={"slices": "slice_head", "joinrows": "join", "win": "mutate", "agg": "summarize"}.get(c["verb"], "union"), i=1)], heap_obs=[], beh=r))
     ctx.extra["arg_space"] = dict(configurations=len(cfgs), executions=len(recs), verdicts=counts, canary_rejected=bool(canary),
                                   universe=dict(n=ns, offset=ks, table_sizes=sizes, union_columns=ucols))
     ctx.behaviours += len(recs)
